@@ -344,7 +344,7 @@ def oracle(case, io):
         tol = 1e-9 * max(1.0, np.abs(pe).max(), np.abs(pn).max())
         if pe.min() < io[0] - tol or pe.max() > io[1] + tol or pn.min() < io[2] - tol or pn.max() > io[3] + tol:
             return "projected grid nodes fall outside project_region's result"
-        if abs(pe.min() - io[0]) > tol or abs(pe.max() - io[1]) > tol or abs(pn.min() - io[2]) > tol or abs(pn.max() - io[3]) > tol:
+        if not (abs(pe.min() - io[0]) <= tol and abs(pe.max() - io[1]) <= tol and abs(pn.min() - io[2]) <= tol and abs(pn.max() - io[3]) <= tol):
             return "project_region is not the tight bounding box of the projected region"
         return None
     return None
